@@ -5,6 +5,10 @@ HERE = os.path.dirname(os.path.dirname(os.path.abspath(__file__)))
 ALL = [f'C{i:02d}' for i in range(1, 21)]
 
 CHECKS = {
+ 'C01': dict(level='exploration', design='3/C01',
+   technique='runtime monitor: whole-MDIB canonical comparison consumer vs provider after every transaction of seeded histories over a socket-free loop-back of the real provider/consumer stack; per-report before/after monitor of the consumer observables against the report bytes',
+   text='Real SdcProvider, SdcConsumer and ConsumerMdib are connected through an in-process loop-back transport (real SOAP clients, message factory/reader, schema validation, subscription managers - sync and async -, dispatchers). Seeded histories of all transaction kinds run on the four sample MDIBs (contextstates_in_getmdib on/off); one consumer is attached before the first transaction and one after a random prefix. After every transaction the canonical snapshot (descriptors with parents, states, context states, version group; lookups vs scan) of each consumer MDIB must equal the provider snapshot; for every delivered notification the consumer state of the entities in the report is captured before and after delivery and the observables fired in between must name exactly the entities that changed, with the objects stored in the tables. A consumer answering a valid report with an error is a violation.',
+   note='Trusted: loop-back fidelity L1 (HTTP framing replaced, everything above it real); canonical form compares timestamps at 1 ms, implied == explicit values, ClockState.DateAndTime excluded.'),
  'C03': dict(level='fault_enumeration', design='3/C03',
    technique='fault injection + snapshot-equality oracle on the real provider: body crash points, rejected calls, raising pre-commit handler, natural commit failures, failpoints at the n-th table update; reflection-driven deep mutator on every handed-out object',
    text='A real provider (loop-back transport, one subscribed consumer as report sink) is driven through transactions that must not take effect: the body raises at every position (0..k of k handles, both interfaces; start/middle/end of every op kind in random histories, after deep mutation of the handed-out copies), API calls that must be rejected, a raising pre-commit handler, commits that fail for natural reasons (duplicate context handle, context-state deletion via entity), and a failpoint that makes the n-th table update of the commit raise. Oracle: full canonical snapshot (content, versions, saved version counters, table sizes, lookups) equal to the one before, nothing on the wire, no result published. Isolation: every nested attribute path (found by reflection over the property descriptors) of every object handed out by transaction getters (during and after the transaction), entity getters, transaction results and created descriptors is mutated once; after each mutation the MDIB snapshot and all retained earlier results must be unchanged.',
